@@ -10,7 +10,7 @@ package main
 //
 // ops:
 //   gate.join   name= host= port= ouuid= t= chk= reason= c2s= s2c=   => c= s= cname= cuuid= sname= suuid= sproto= cs= sc= rs= rc=
-//   disp.run    t= regs= pkts=                                       => log=… end=…
+//   disp.run    t= calls= regs= pkts=                                      => log=… end=…
 //   gate.bot    name= ouuid= script=                                 => c= cname= cuuid= cs=
 //   gate.status mode=mem|tcp name= proto= max= online= desc= fav= ns= seq= payload=  => r=…
 
@@ -730,15 +730,22 @@ type handlerErr struct{ hid int }
 
 func (h handlerErr) Error() string { return "handler " + strconv.Itoa(h.hid) + " failed" }
 
-func c19Disp(c *Ctx, t int, calls []regCall, ids []int32) {
-	obs, ran := c19Watch(func() string { return runDisp(t, calls, ids) })
+func c19Disp(c *Ctx, t int, calls []regCall, ids []int32) { c19DispN(c, t, 1, calls, ids) }
+
+// c19DispN: HandleGame is called up to ncalls times on the same client/connection; it is called again only after
+// it returned a handler's error (PacketHandlerError is not fatal: examples/minimal resumes this way).
+func c19DispN(c *Ctx, t, ncalls int, calls []regCall, ids []int32) {
+	if ncalls < 1 {
+		ncalls = 1
+	}
+	obs, ran := c19Watch(func() string { return runDisp(t, ncalls, calls, ids) })
 	if !ran {
 		return
 	}
-	c.Emit("disp.run", []string{"t=" + strconv.Itoa(t), "regs=" + regsArg(calls), "pkts=" + idsArg(ids)}, obs)
+	c.Emit("disp.run", []string{"t=" + strconv.Itoa(t), "calls=" + strconv.Itoa(ncalls), "regs=" + regsArg(calls), "pkts=" + idsArg(ids)}, obs)
 }
 
-func runDisp(t int, calls []regCall, ids []int32) string {
+func runDisp(t, ncalls int, calls []regCall, ids []int32) string {
 	cl := bot.NewClient()
 	cl.Auth.Name = "disp"
 	var log []string
@@ -799,28 +806,38 @@ func runDisp(t int, calls []regCall, ids []int32) string {
 		<-srvDone
 		return "nojoin"
 	}
-	var herr error
-	hp, _ := guard(func() { herr = cl.HandleGame() })
+	var ends []string
+	for call := 0; call < ncalls; call++ {
+		var herr error
+		hp, _ := guard(func() { herr = cl.HandleGame() })
+		end := "other"
+		var he handlerErr
+		var phe bot.PacketHandlerError
+		resumable := false
+		switch {
+		case hp:
+			end = "panic"
+		case errors.As(herr, &he):
+			end = fmt.Sprintf("handler:%d", he.hid)
+			if errors.As(herr, &phe) {
+				end += fmt.Sprintf(":%d", int32(phe.ID))
+				resumable = true
+			} else {
+				end += ":unwrapped"
+			}
+		case errors.Is(herr, io.EOF):
+			end = "eof"
+		case herr == nil:
+			end = "nil"
+		}
+		ends = append(ends, end)
+		if !resumable {
+			break
+		}
+	}
 	<-srvDone
 	cl.Close()
-	end := "other"
-	var he handlerErr
-	var phe bot.PacketHandlerError
-	switch {
-	case hp:
-		end = "panic"
-	case errors.As(herr, &he):
-		end = fmt.Sprintf("handler:%d", he.hid)
-		if errors.As(herr, &phe) {
-			end += fmt.Sprintf(":%d", int32(phe.ID))
-		} else {
-			end += ":unwrapped"
-		}
-	case errors.Is(herr, io.EOF):
-		end = "eof"
-	case herr == nil:
-		end = "nil"
-	}
+	end := strings.Join(ends, "/")
 	l := "-"
 	if len(log) > 0 {
 		l = strings.Join(log, ",")
@@ -1131,7 +1148,7 @@ func replayC19(c *Ctx, op string, args []string) bool {
 		c19Join(c, joinCase{name: string(unhx(m["name"])), host: string(unhx(m["host"])), port: c19Atoi(m["port"]), t: c19Atoi(m["t"]),
 			chk: m["chk"], reason: string(unhx(m["reason"])), c2s: c19ParsePkts(m["c2s"]), s2c: c19ParsePkts(m["s2c"])})
 	case "disp.run":
-		c19Disp(c, c19Atoi(m["t"]), parseRegs(m["regs"]), parseIDs(m["pkts"]))
+		c19DispN(c, c19Atoi(m["t"]), c19Atoi(m["calls"]), parseRegs(m["regs"]), parseIDs(m["pkts"]))
 	case "gate.bot":
 		var sc []string
 		if m["script"] != "-" && m["script"] != "" {
@@ -1245,6 +1262,11 @@ func genC19(c *Ctx) {
 	for k := 0; k < c.N(3000, 12000); k++ {
 		c19Disp(c, c19Thresholds[r.Intn(len(c19Thresholds))], c19Regs(r, guardID, k), c19DispPkts(r, guardID, k))
 	}
+	// resumed runs: HandleGame called again after a handler error (in a bundled packet, in a plain packet, in a generic
+	// handler), with further bundles and plain packets afterwards
+	for k := 0; k < c.N(2500, 10000); k++ {
+		c19DispN(c, c19Thresholds[r.Intn(len(c19Thresholds))], []int{2, 3, 5, 8}[r.Intn(4)], c19RegsFailing(r, guardID), c19ResumePkts(r))
+	}
 	// bundle limit: 4094..4097 packets inside a bundle, closed / unterminated
 	for _, n := range []int{4094, 4095, 4096, 4097, 5000} {
 		for _, closed := range []bool{true, false} {
@@ -1318,6 +1340,53 @@ func c19Regs(r *rand.Rand, guardID int32, k int) []regCall {
 		calls = append(calls, regCall{es: []regEntry{{bad, 0, hid, 0}}})
 	}
 	return calls
+}
+
+// registration histories in which failures are common: always-failing and odd-index-failing handlers, generic and specific
+func c19RegsFailing(r *rand.Rand, guardID int32) []regCall {
+	ids := []int{1, 2, 3}
+	prios := []int{0, 0, 1, -1, 5}
+	hid := 0
+	var calls []regCall
+	nc := 1 + r.Intn(5)
+	for i := 0; i < nc; i++ {
+		call := regCall{generic: r.Intn(3) == 0}
+		ne := 1 + r.Intn(2)
+		for e := 0; e < ne; e++ {
+			hid++
+			en := regEntry{id: ids[r.Intn(len(ids))], prio: prios[r.Intn(len(prios))], hid: hid}
+			switch r.Intn(6) {
+			case 0:
+				en.fail = 1
+			case 1, 2:
+				en.fail = 2
+			}
+			call.es = append(call.es, en)
+		}
+		calls = append(calls, call)
+	}
+	return calls
+}
+
+// packet lists with several bundles (some empty, some unterminated at the end) and plain packets between them
+func c19ResumePkts(r *rand.Rand) []int32 {
+	var out []int32
+	units := 1 + r.Intn(6)
+	for u := 0; u < units; u++ {
+		if r.Intn(3) > 0 {
+			out = append(out, 0)
+			n := r.Intn(5)
+			for i := 0; i < n; i++ {
+				out = append(out, 1+r.Int31n(3))
+			}
+			if u < units-1 || r.Intn(4) > 0 {
+				out = append(out, 0)
+			}
+		} else {
+			out = append(out, 1+r.Int31n(3))
+		}
+	}
+	return out
 }
 
 func c19DispPkts(r *rand.Rand, guardID int32, k int) []int32 {
